@@ -13,10 +13,16 @@ named completion codes) from
 
 What is read: retry budgets (20 / 5 / 3), initial request size and decrement, header read, which
 completion code every `if`/`except` branch tests for and what that branch does, the loop tests
-(`== 0`, `<= 0`, `> 0`), which reservation function every call site passes.  Three things are
+(`== 0`, `<= 0`, `> 0`), which reservation function every call site passes.  Four things are
 read as *variants* rather than fixed shape, because the pinned tree and the repaired tree differ in
 them: whether the 0xCA handler of get_sdr_data_helper ends in `continue`, which reservation
-function `_get_sdr_chunk` renews with, and whether `send_message` re-raises non-busy codes.
+function `_get_sdr_chunk` renews with, whether `send_message` re-raises non-busy codes, and whether
+the reservation id get_sdr_chunk_helper obtains after a cancellation is handed on (`staleRes`): the
+chunk readers return / attach `req.reservation_id`, get_sdr_data_helper adopts it at the header
+read, at every chunk read and in the CompletionCodeError handler and returns it
+(`with_reservation`), the entries generators adopt it for the next record (through
+`_get_repository_sdr` / `_get_device_sdr`).  All of these places or none: a tree that hands the id
+on in some places only is outside the grammar (TieBroken).
 
 Fail closed: every statement of every function above has to match the grammar below; anything
 else raises `TieBroken` with the offending source line.
@@ -184,16 +190,26 @@ def _data_helper(tree):
     w = 'helper.get_sdr_data_helper'
     fn = _func(tree, 'get_sdr_data_helper', where=w)
     args, dflt = _defaults(fn)
-    _expect(args == ['reserve_fn', 'get_fn', 'record_id', 'reservation_id'] and dflt.get('reservation_id', 0) is None,
+    _expect(args[:4] == ['reserve_fn', 'get_fn', 'record_id', 'reservation_id'] and dflt.get('reservation_id', 0) is None
+            and (args[4:] == [] or (args[4:] == ['with_reservation'] and dflt.get('with_reservation') is False)),
             w, fn.args, 'unexpected signature')
     b = _stmts(fn)
-    _expect(len(b) == 14, w, fn, 'expected 14 top-level statements, found %d' % len(b))
+    hands = {}      # place -> the renewed reservation id is handed on there
+    hands['data_helper:with_reservation parameter'] = len(args) == 5
+    hands['data_helper:returns the id'] = (len(b) == 15)
+    if len(b) == 15:
+        _expect(_u(b[13]) == 'if with_reservation:\n    return (next_id, record_data, reservation_id)', w, b[13],
+                'expected `if with_reservation: return (next_id, record_data, reservation_id)`')
+        b = b[:13] + b[14:]
+    _expect(len(b) == 14, w, fn, 'expected 14 top-level statements (15 with the reservation returned), found %d' % len(b))
     _expect(_u(b[0]) == 'if reservation_id is None:\n    reservation_id = reserve_fn()', w, b[0], 'reserve-unless-given')
     # header read
-    _expect(isinstance(b[1], ast.Assign) and _u(b[1].targets[0]) == '(next_id, data)' and isinstance(b[1].value, ast.Call)
+    _expect(isinstance(b[1], ast.Assign) and _u(b[1].targets[0]) in ('(next_id, data)', '(next_id, data, reservation_id)')
+            and isinstance(b[1].value, ast.Call)
             and _u(b[1].value.func) == 'get_fn' and [_u(a) for a in b[1].value.args[:2]] == ['reservation_id', 'record_id']
             and len(b[1].value.args) == 4 and all(isinstance(a, ast.Constant) for a in b[1].value.args[2:]),
-            w, b[1], 'expected `(next_id, data) = get_fn(reservation_id, record_id, <off>, <len>)`')
+            w, b[1], 'expected `(next_id, data[, reservation_id]) = get_fn(reservation_id, record_id, <off>, <len>)`')
+    hands['data_helper:header read'] = _u(b[1].targets[0]) == '(next_id, data, reservation_id)'
     hdr_off, hdr_len = b[1].value.args[2].value, b[1].value.args[3].value
     _expect(_u(b[2]) == 'header = ByteBuffer(data)', w, b[2], 'header buffer')
     pops, names = [], []
@@ -228,9 +244,16 @@ def _data_helper(tree):
     clamp = _cmp_expr(lp[3].test, 'offset + length', 'record_length', w)
     t = lp[4]
     _expect(isinstance(t, ast.Try) and not t.orelse and not t.finalbody and len(t.handlers) == 1
-            and [_u(s) for s in t.body] == ['next_id, data = get_fn(reservation_id, record_id, offset, length)']
+            and [_u(s) for s in t.body] in (['next_id, data = get_fn(reservation_id, record_id, offset, length)'],
+                                           ['next_id, data, reservation_id = get_fn(reservation_id, record_id, offset, length)'])
             and _u(t.handlers[0].type) == 'CompletionCodeError' and t.handlers[0].name == 'e', w, t, 'try/except around get_fn')
+    hands['data_helper:chunk read'] = _u(t.body[0]).startswith('next_id, data, reservation_id =')
     h = t.handlers[0].body
+    hands['data_helper:CompletionCodeError handler'] = len(h) == 2
+    if len(h) == 2:
+        _expect(_u(h[0]) == "reservation_id = getattr(e, 'reservation_id', reservation_id)", w, h[0],
+                "expected `reservation_id = getattr(e, 'reservation_id', reservation_id)`")
+        h = h[1:]
     _expect(len(h) == 1 and isinstance(h[0], ast.If), w, t.handlers[0], 'handler is one if/else')
     ca = _eq_code(h[0].test, 'e.cc', w)
     hb = h[0].body
@@ -253,7 +276,7 @@ def _data_helper(tree):
     return dict(hdrLen=hdr_len, headerOffset=hdr_off, headerPops=pops, recordLengthAdd=add,
                 maxReqLen=consts['max_req_len'], dataRetry=consts['retry'], reqLenDec=dec, cantReturn=ca,
                 dataDecr=decr, dataExhaustCmp=ex_cmp, dataExhaustAt=ex_at, dataClampCmp=clamp, dataBreakCmp=brk,
-                dataOtherCodeReraises=True, fallThrough=falls, zeroLenRaises=(zact == 'raise RetryError()'))
+                dataOtherCodeReraises=True, fallThrough=falls, zeroLenRaises=(zact == 'raise RetryError()'), hands=hands)
 
 
 def _clear(tree):
@@ -342,6 +365,7 @@ def _self_name(expr, where):
 
 def _call_sites(sdr_tree, sensor_tree, sel_tree):
     out = {}
+    hands = out['hands'] = {}
     for tree, cls, chunk, req_name, data_fn, entries, reserve_expected, key in (
             (sdr_tree, 'Sdr', '_get_sdr_chunk', 'GetSdr', 'get_repository_sdr', 'sdr_repository_entries', 'reserve_sdr_repository', 'repo'),
             (sensor_tree, 'Sensor', '_get_device_sdr_chunk', 'GetDeviceSdr', 'get_device_sdr', 'device_sdr_entries',
@@ -353,8 +377,21 @@ def _call_sites(sdr_tree, sensor_tree, sel_tree):
         b = [_u(s) for s in _stmts(fn)]
         _expect(b[:5] == ["req = create_request_by_name('%s')" % req_name, 'req.reservation_id = reservation_id',
                           'req.record_id = record_id', 'req.offset = offset', 'req.bytes_to_read = length']
-                and len(b) == 7 and b[6] == 'return (rsp.next_record_id, rsp.record_data)', w, fn, 'unexpected body')
+                and len(b) == 7 and b[6] in ('return (rsp.next_record_id, rsp.record_data)',
+                                             'return (rsp.next_record_id, rsp.record_data, req.reservation_id)'),
+                w, fn, 'unexpected body')
+        hands['%s:returns req.reservation_id' % chunk] = b[6].endswith('req.reservation_id)')
         call = _stmts(fn)[5]
+        hands['%s:CompletionCodeError carries req.reservation_id' % chunk] = isinstance(call, ast.Try)
+        if isinstance(call, ast.Try):
+            t = call
+            _expect(not t.orelse and not t.finalbody and len(t.handlers) == 1 and len(t.body) == 1
+                    and _u(t.handlers[0].type) in ('CompletionCodeError', 'errors.CompletionCodeError')
+                    and t.handlers[0].name == 'e'
+                    and [_u(s) for s in t.handlers[0].body] == ['e.reservation_id = req.reservation_id', 'raise'], w, t,
+                    'expected `try: rsp = get_sdr_chunk_helper(…) except CompletionCodeError as e: '
+                    'e.reservation_id = req.reservation_id; raise`')
+            call = t.body[0]
         _expect(isinstance(call, ast.Assign) and _u(call.targets[0]) == 'rsp' and isinstance(call.value, ast.Call)
                 and _u(call.value.func) == 'get_sdr_chunk_helper' and len(call.value.args) == 3 and not call.value.keywords
                 and [_u(a) for a in call.value.args[:2]] == ['self.send_message', 'req'], w, call,
@@ -366,10 +403,34 @@ def _call_sites(sdr_tree, sensor_tree, sel_tree):
         w = '%s.%s' % (cls, data_fn)
         fn = _func(tree, data_fn, cls=cls, where=w)
         b = _stmts(fn)
-        _expect(len(b) == 2 and isinstance(b[0], ast.Assign) and _u(b[0].targets[0]) == '(next_id, record_data)'
-                and isinstance(b[0].value, ast.Call) and _u(b[0].value.func) == 'get_sdr_data_helper'
-                and [_u(a) for a in b[0].value.args[1:]] == ['self.' + chunk, 'record_id', 'reservation_id']
-                and _u(b[1]).endswith('SdrCommon.from_data(record_data, next_id)'), w, fn, 'unexpected body')
+        inner = '_' + data_fn
+        through = len(b) == 1
+        hands['%s:through %s' % (data_fn, inner)] = through
+        if through:
+            # get_repository_sdr / get_device_sdr is `_get_…_sdr(…)[0]`; the generator uses the pair
+            _expect(_u(b[0]) == 'return self.%s(record_id, reservation_id)[0]' % inner, w, fn,
+                    'expected `return self.%s(record_id, reservation_id)[0]`' % inner)
+            args, dflt = _defaults(fn)
+            _expect(args == ['self', 'record_id', 'reservation_id'] and dflt.get('reservation_id', 0) is None, w, fn.args,
+                    'unexpected signature')
+            w = '%s.%s' % (cls, inner)
+            fn = _func(tree, inner, cls=cls, where=w)
+            b = _stmts(fn)
+            _expect(len(b) == 2 and isinstance(b[0], ast.Assign) and _u(b[0].targets[0]) == '(next_id, record_data, reservation_id)'
+                    and isinstance(b[0].value, ast.Call) and _u(b[0].value.func) == 'get_sdr_data_helper'
+                    and [_u(a) for a in b[0].value.args[1:]] == ['self.' + chunk, 'record_id', 'reservation_id']
+                    and [(k.arg, _u(k.value)) for k in b[0].value.keywords] == [('with_reservation', 'True')]
+                    and _u(b[1]).startswith('return (') and _u(b[1]).endswith('SdrCommon.from_data(record_data, next_id), reservation_id)'),
+                    w, fn, 'unexpected body')
+        else:
+            _expect(len(b) == 2 and isinstance(b[0], ast.Assign) and _u(b[0].targets[0]) == '(next_id, record_data)'
+                    and isinstance(b[0].value, ast.Call) and _u(b[0].value.func) == 'get_sdr_data_helper'
+                    and not b[0].value.keywords
+                    and [_u(a) for a in b[0].value.args[1:]] == ['self.' + chunk, 'record_id', 'reservation_id']
+                    and _u(b[1]).endswith('SdrCommon.from_data(record_data, next_id)'), w, fn, 'unexpected body')
+        args, dflt = _defaults(fn)
+        _expect(args == ['self', 'record_id', 'reservation_id'] and dflt.get('reservation_id', 0) is None, w, fn.args,
+                'unexpected signature')
         nm = _self_name(b[0].value.args[0], w)
         _expect(nm in STORE_OF_RESERVE, w, b[0], 'unknown reservation function')
         out[key + 'DataReserve'] = STORE_OF_RESERVE[nm]
@@ -387,8 +448,11 @@ def _call_sites(sdr_tree, sensor_tree, sel_tree):
         out[key + 'ListStart'] = b[1].value.value
         lp = [_u(s) for s in b[2].body]
         var = 's' if key == 'repo' else 'record'
-        _expect(lp == ['%s = self.%s(record_id, reservation_id)' % (var, data_fn), 'yield %s' % var,
-                       'if %s.next_id == 65535:\n    break' % var, 'record_id = %s.next_id' % var], w, b[2], 'unexpected loop')
+        first = ['%s = self.%s(record_id, reservation_id)' % (var, data_fn),
+                 '%s, reservation_id = self.%s(record_id, reservation_id)' % (var, inner)]
+        _expect(lp[:1] in ([first[0]], [first[1]]) and lp[1:] == [
+            'yield %s' % var, 'if %s.next_id == 65535:\n    break' % var, 'record_id = %s.next_id' % var], w, b[2], 'unexpected loop')
+        hands['%s:adopts the id for the next record' % entries] = lp[0] == first[1]
 
     for tree, cls, fn_name, want, key in ((sdr_tree, 'Sdr', 'clear_sdr_repository',
                                            'clear_repository_helper(self.reserve_sdr_repository, self._clear_sdr_repository, retry)', 'sdrClear'),
@@ -408,10 +472,18 @@ def extract():
     helper = _parse('pyipmi/helper.py')
     d = {}
     d.update(_chunk_helper(helper))
-    d.update(_data_helper(helper))
+    dh = _data_helper(helper)
+    hands = dh.pop('hands')
+    d.update(dh)
     d.update(_clear(helper))
     d.update(_send_message(_parse('pyipmi/__init__.py')))
-    d.update(_call_sites(_parse('pyipmi/sdr.py'), _parse('pyipmi/sensor.py'), _parse('pyipmi/sel.py')))
+    cs = _call_sites(_parse('pyipmi/sdr.py'), _parse('pyipmi/sensor.py'), _parse('pyipmi/sel.py'))
+    hands.update(cs.pop('hands'))
+    d.update(cs)
+    if any(hands.values()) and not all(hands.values()):
+        raise TieBroken('the reservation id obtained after a cancellation is handed on in some places only: yes at %s; no at %s' % (
+            sorted(k for k, v in hands.items() if v), sorted(k for k, v in hands.items() if not v)))
+    d['staleRes'] = not any(hands.values())
     if d['ccOk'] != 0:
         raise TieBroken('helper.get_sdr_chunk_helper: success is not completion code 0')
     return d
@@ -462,8 +534,9 @@ def render(d):
     L.append('    repoListReserve := .%s, devListReserve := .%s, listStartId := %d }' % (
         d['repoListReserve'], d['devListReserve'], d['repoListStart']))
     L.append('')
-    L.append('/-- the three places where pinned and repaired source differ, as read from the source now -/')
-    L.append('def variantRead : Variant := ⟨%s, .%s, .%s⟩' % (_b(d['fallThrough']), d['repoRenew'], d['devRenew']))
+    L.append('/-- the places where pinned and repaired source differ, as read from the source now -/')
+    L.append('def variantRead : Variant := ⟨%s, .%s, .%s, %s⟩' % (_b(d['fallThrough']), d['repoRenew'], d['devRenew'],
+                                                                 _b(d['staleRes'])))
     L.append('def sendVariantRead : SendVariant := ⟨%s⟩' % _b(d['retryAnyCode']))
     L.append('/-- `if max_req_len <= 0:` raises RetryError (true) or sets `retry = 0` (false); not reachable on a device with a fixed limit -/')
     L.append('def zeroLenRaises : Bool := %s' % _b(d['zeroLenRaises']))
